@@ -252,6 +252,11 @@ def _gen_key(rng, n):
         return b"\xff" * n
     if r < 0.16:
         return bytes(n - 1) + b"\x01"
+    if r < 0.28:
+        # keys whose hexadecimal text consists of the digits 0-9 only: written without a prefix they are still hexadecimal
+        return bytes([0x10 * rng.randrange(1, 10) + rng.randrange(10)] + [0x10 * rng.randrange(10) + rng.randrange(10) for _ in range(n - 1)])
+    if r < 0.32:
+        return bytes([0x0B] + [rng.choice((0x00, 0x01, 0x10, 0x11)) for _ in range(n - 1)])  # '0b0110...' is hexadecimal text too
     return core.rand_bytes(rng, n)
 
 
